@@ -3,6 +3,7 @@ package checks
 import (
 	"bytes"
 	"fmt"
+	"strings"
 
 	"verifharness/drv"
 	"verifharness/wire"
@@ -10,11 +11,15 @@ import (
 
 // c13Deep: a self-referencing subroutine driven k levels deep by the input (one attempt, anchored at the start of the
 // file), written as an inline subroutine and as a stored pattern: both match the whole input a^k b, whatever k is.
-// Quick: k = 700; thorough: k = 4 100 and 10 050 (the VM copies its call stack on every step: quadratic cost).
+// Quick: k = 700 and a chain of 10 051 inline subroutines each standing for the one before it; thorough: k = 4 100
+// and chains of 4 101 and 16 501
+// (the VM copies its call stack on every step: quadratic cost, about 4 s for the chain).
 func c13Deep(r *drv.Run) {
 	ks := []int{700}
+	chains := []int{700, 10050}
 	if !quick(r) {
-		ks = append(ks, 4100, 10050)
+		ks = append(ks, 4100)
+		chains = append(chains, 4100, 16500)
 	}
 	srcs := []string{
 		"find all file start {'b' or ('a' s)} = s",
@@ -22,18 +27,33 @@ func c13Deep(r *drv.Run) {
 		"set p to pattern {'b' or ('a' s)} = s\nfind all file start p\nfind all file start {'b' or ('a' t)} = t",
 	}
 	type job struct {
-		src string
-		k   int
+		src   string
+		k     int
+		chain bool
 	}
 	var jobs []job
 	for _, k := range ks {
 		for _, s := range srcs {
-			jobs = append(jobs, job{s, k})
+			jobs = append(jobs, job{s, k, false})
 		}
+	}
+	// a CHAIN of n+1 inline subroutines, each standing for the one before it ({'a'} = s0 {s0} = s1 ...), declared in an
+	// alternative that fails at once; the other alternative calls the last one: n+1 live call frames for one byte
+	for _, n := range chains {
+		var sb strings.Builder
+		sb.WriteString("find all ('zzz' {'a'} = s0")
+		for k := 1; k <= n; k++ {
+			fmt.Fprintf(&sb, " {s%d} = s%d", k-1, k)
+		}
+		fmt.Fprintf(&sb, ") or (s%d)", n)
+		jobs = append(jobs, job{sb.String(), n, true})
 	}
 	r.Exec(len(jobs), drv.ExecOpts{Batch: 1, WallSecs: 1800}, func(i int) *drv.Item {
 		jb := jobs[i]
 		text := append(bytes.Repeat([]byte("a"), jb.k), 'b')
+		if jb.chain {
+			text = []byte("a")
+		}
 		c := wire.Case{Op: "run", Src: []byte(jb.src), Texts: [][]byte{text}, StepBudget: 50_000_000}
 		return &drv.Item{Case: c, Check: func(res *wire.Result) {
 			if crashOrGuard(r, res, &c, jb.src, false) {
@@ -51,18 +71,22 @@ func c13Deep(r *drv.Run) {
 				return
 			}
 			ncmd := 1
-			if i%3 == 2 {
+			if !jb.chain && i%3 == 2 {
 				ncmd = 2
+			}
+			end := jb.k + 1
+			if jb.chain {
+				end = 1
 			}
 			ok := len(run.Matches) == ncmd
 			for _, m := range run.Matches {
-				if m.S != 0 || m.E != jb.k+1 {
+				if m.S != 0 || m.E != end {
 					ok = false
 				}
 			}
 			if !ok {
-				r.Violate(&drv.Violation{Sig: "deep-recursion:named-pattern-does-not-match-what-its-body-matches", Src: jb.src, Text: fmt.Sprintf("a^%d b", jb.k), Case: &c,
-					Detail: map[string]any{"depth": jb.k, "expected": fmt.Sprintf("%d match(es) [0,%d)", ncmd, jb.k+1), "observed": fmtGotN(run.Matches), "max_call_depth": run.MaxCall}})
+				r.Violate(&drv.Violation{Sig: "deep-recursion:named-pattern-does-not-match-what-its-body-matches", Src: oneLineN(jb.src, 200), Text: fmt.Sprintf("depth %d", jb.k), Case: &c,
+					Detail: map[string]any{"depth": jb.k, "expected": fmt.Sprintf("%d match(es) [0,%d)", ncmd, end), "observed": fmtGotN(run.Matches), "max_call_depth": run.MaxCall}})
 				return
 			}
 			r.Count("deep_recursion_runs_verified", 1)
